@@ -323,8 +323,41 @@ fn mk(workers: usize, poisoned: bool, parts: &'static [(char, &'static str)], ma
     }
 }
 
+/// store-buffer member: a thread holds the write lock, the coroutine W queues up (as writer or as first reader) and is
+/// cancelled; the holder unlocks in the instant in which W has registered its release
+fn handoff_vs_cancel(e: &'static Engine, workers: usize, reader: bool) {
+    rt_init(workers);
+    let l: &'static RwLock<u32> = Box::leak(Box::new(RwLock::new(0)));
+    static HELD: AtomicBool = AtomicBool::new(false);
+    e.begin();
+    let u = e.spawn("holder", move || {
+        let g = l.write().unwrap();
+        HELD.store(true, Ordering::SeqCst);
+        e.wait_label("syncblocker.set_release");
+        drop(g);
+    });
+    e.wait_flag(&HELD);
+    let w = go!(move || {
+        if reader {
+            let _g = l.read().unwrap();
+        } else {
+            let _g = l.write().unwrap();
+        }
+    });
+    e.quiesce();
+    unsafe { w.coroutine().cancel() };
+    let rw = w.join();
+    e.join(u);
+    probe(e, l);
+    e.note(&format!("w={} store_buffer={}", if rw.is_ok() { "ok" } else { "cancel" }, e.tso_used()));
+}
+
 pub fn build(quick: bool) -> Vec<Scenario> {
     let mut v = vec![];
+    for w in [1usize, 2] {
+        v.push(Scenario::new("C12", "rwlock_store_buffer", format!("rwlock.handoff_vs_cancel.writer.store_buffer.w{}", w), Arc::new(move |e| handoff_vs_cancel(e, w, false))).tso(&["src/sync/blocking.rs"]).bound(2));
+    }
+    v.push(Scenario::new("C12", "rwlock_store_buffer", "rwlock.handoff_vs_cancel.reader.store_buffer.w1", Arc::new(move |e| handoff_vs_cancel(e, 1, true))).tso(&["src/sync/blocking.rs"]).bound(2));
     for p in [false, true] {
         v.push(mk(1, p, &[('T', "R")], "W", None));
         v.push(mk(1, p, &[('T', "W")], "W", None));
